@@ -23,7 +23,8 @@ func (c01) ID() string { return "C01" }
 
 func (c01) Rule() string {
 	return "each run: seeded error tree over all constructors (regular strings, swarm-selected constructor groups), " +
-		"cluster of 2..6 knowing processes, 1..2 routes of 1..8 hops with duplication/delay; " +
+		"cluster of 2..6 knowing processes, 1..2 routes of 1..8 hops with duplication/delay; the origin and relays may log/report/inspect the error before sending it (1/3), " +
+		"a relay may wrap what it received in 1..3 generated layers and send that on as a new flow (1/6), an errno may arrive as sent by a peer of another architecture (1/4); " +
 		"distinct = (constructor-shape signature x route lengths x duplicate count); " +
 		"non-trivial = tree has >= 2 layers and some route has >= 1 hop (always true for routes)"
 }
